@@ -131,7 +131,7 @@ def gen_case(rng, tier, methods=('cycles', 'amp'), centers=('peak', 'trough'), k
         c.update(extra)
     if other:
         other_method_options(c, s)
-    if not (short and short_recording(c, s)) and exact_k is not None:
+    if not (short and short_recording(c, s, force=(short == 'force'))) and exact_k is not None:
         exact_length(c, s['period'], exact_k)
     c['key_order'] = key_order(c)
     c.update(mechanisms(c))
@@ -141,7 +141,7 @@ def gen_case(rng, tier, methods=('cycles', 'amp'), centers=('peak', 'trough'), k
 SHORT_SHARE = 0.12
 
 
-def short_recording(c, s):
+def short_recording(c, s, force=False):
     """The lower edge of the quantified class: for SHORT_SHARE of the cases (drawn from a generator seeded with the case
     content, so that every other case stays as it was) the recording is cut down to a stretch only just longer than
     the longest band-pass kernel the analysis designs (extrema filter, the 3-cycle envelope filter, the detector's
@@ -150,7 +150,7 @@ def short_recording(c, s):
     applied (such a case is not re-expressed by exact_length)."""
     r = random.Random(canon_hash({k: v for k, v in c.items() if k not in ('key_order', 'history', 'exact', 'short') + MECH_FIELDS})
                       + '/short')
-    if r.random() >= SHORT_SHARE:
+    if r.random() >= SHORT_SHARE and not force:
         return False
     from neurodsp.filt.fir import compute_filter_length
     n = len(c['sig'])
@@ -165,10 +165,10 @@ def short_recording(c, s):
         except Exception:
             return None
     tight = False
-    if not s.get('band') and r.random() < 0.5:
+    if not s.get('band') and (force or r.random() < 0.5):
         # low cut-off close to the rhythm: the 3-cycle kernel is then only ~3.3 rhythm periods long (tables of 1-2 rows)
         f0 = fs / float(s['period'])
-        band = [round(0.9 * f0, 4), round(1.45 * f0, 4)]
+        band = [round((0.95 if force else 0.9) * f0, 4), round(1.45 * f0, 4)]
         tight = True
     lens = [taps(None), taps((c.get('fek') or {}).get('filter_kwargs'))]
     if c['method'] == 'amp':
@@ -176,7 +176,7 @@ def short_recording(c, s):
     if any(x is None for x in lens):
         return False
     period = max(2, int(round(s['period'])))
-    L = max(lens) + r.choice([1, 2, 3, period // 5, period // 4, period // 3] if tight else
+    L = max(lens) + r.choice([1, 2, 3] if force else [1, 2, 3, period // 5, period // 4, period // 3] if tight else
                              [1, 2, 3, period // 3, period // 2, period, period + period // 2])
     if L >= n:
         return False
@@ -187,6 +187,9 @@ def short_recording(c, s):
     fek = c.get('fek')
     if fek and fek.get('boundary') == n // 10:
         fek['boundary'] = L // 10
+    if force and r.random() < 0.6:
+        # a boundary of a fraction of a period removes the extrema next to the ends: the table loses a row or two
+        c['fek'] = dict(c.get('fek') or {}, boundary=r.choice([period // 4, period // 2, (3 * period) // 4]))
     c['short'] = {'samples': L, 'offset': off, 'longest_kernel': max(lens), 'tight_band': tight}
     c['kind'] += '+short'
     return True
